@@ -29,7 +29,7 @@ use zipora::hash_map::{
 use zipora::memory::{SecureMemoryPool, SecurePoolConfig};
 
 const HEADER: &str = r#"From ZV.Common Require Import Base Run.
-From ZV.C06 Require Import Model ModelGold ModelEasy ModelIdx ModelFast.
+From ZV.C06 Require Import Model ModelGold ModelEasy ModelIdx ModelFast ModelStr.
 Open Scope N_scope.
 (* kind 0: standard storage [hasher mode; initial capacity; has_final; final capacity] [final slot-order iteration]
    kind 1: stub storage; kind 2: SmallMap;
@@ -38,6 +38,7 @@ Open Scope N_scope.
    kind 6: standard storage under a hash function given as a table (String / typed keys: key numbers are the harness's
            canonical numbering of the keys, the table holds what the cell's BuildHasher returns for each) [initial capacity] [hash table]
    kind 7: SmallMap<u8> with get answered by get_fast (ModelFast.v)
+   kind 8: HashStrMap (ModelStr.v; op 8 = one field of statistics(): v mod 3 = entries / total_strings / unique_strings)
    kind 3: GoldHashMap [initial capacity; cache; gc; reuse; has_final; final bucket count; final deleted count]
                        [final entry-order iteration; hash table; max_load table] *)
 Definition case_t : Type := N * list N * list (list (N * N)) * list op * list obs.
@@ -56,6 +57,7 @@ Definition ok (c : case_t) : bool :=
   | 5 => eqb_obss (irun (hasher 0) (iinit (pn ps 0)) ops) expect
   | 6 => eqb_obss (run (assoc (tb ts 0) 0) (init (pn ps 0)) ops) expect
   | 7 => eqb_obss (smf_run true (hasher 0) (Small []) ops) expect
+  | 8 => eqb_obss (hs_run hs_new ops) expect
   | 4 => let grow := fun l c => pn ps 2 * c <=? pn ps 3 * l in
          eqb_obss (easy_run (hasher 0) grow (negb (pn ps 1 =? 0)) (init (pn ps 0)) ops) expect
   | _ => let h := assoc (tb ts 1) 0 in
@@ -209,6 +211,8 @@ enum ModelDesc {
     StdTab { cap: u64 },
     /// SmallMap<u8>: get goes through get_fast
     SmallU8,
+    /// HashStrMap: std HashMap + counters
+    Str,
 }
 struct Cell { name: String, status: &'static str, model: Option<ModelDesc>, stub: bool, map: Box<dyn Mut> }
 
@@ -338,7 +342,7 @@ fn make_cell(family: &str, variant: u64, aux: u64) -> Cell {
         _ => {
             use zipora::containers::specialized::HashStrMap as H;
             let m = match variant { 0 => H::new(), 1 => H::with_capacity(3), _ => H::default() };
-            Cell { name: "HashStrMap".into(), status: "S-only", model: None, stub: false, map: Box::new(StrM(m)) }
+            Cell { name: "HashStrMap".into(), status: "M+S", model: Some(ModelDesc::Str), stub: false, map: Box::new(StrM(m)) }
         }
     }
 }
@@ -434,7 +438,10 @@ fn history(cx: &mut Ctx, family: &str, variant: u64, aux: u64, ops: &[(u64, u64,
                     let want: Vec<(u64, u64)> = shadow.iter().map(|(a, b)| (*a, *b)).collect();
                     let term = format!("OIter [{}]", got.iter().map(|(a, b)| format!("({}, {})", a, b)).collect::<Vec<_>>().join("; "));
                     (term, if got != want { Some(format!("iteration yields {:?}, the live entries are {:?}", &got[..got.len().min(12)], &want[..want.len().min(12)])) } else { None }) }),
-                8 => m.maintain(v).map(|_| ("OMaint".to_string(), None)),
+                8 => m.maintain(v).map(|_| match m.counter(v) {
+                    // a counter the cell's model knows about (HashStrMap::statistics): an observation of the model; `entries` is also the shadow's
+                    Some(x) => (format!("OLen {}", x), if v % 3 == 0 && x != shadow.len() as u64 { Some(format!("statistics().entries = {}, a map has {} live keys", x, shadow.len())) } else { None }),
+                    None => ("OMaint".to_string(), None) }),
                 // ---- breadth: secondary entry points, judged by the same shadow; none of them is known to the Coq models
                 9 => {
                     // Clone (and PartialEq where the type has it); probe = (a live key, its value, an absent key) for the inequality checks
@@ -524,6 +531,7 @@ fn history(cx: &mut Ctx, family: &str, variant: u64, aux: u64, ops: &[(u64, u64,
                 ModelDesc::Idx { cap } => (5, vec![cap], vec![]),
                 ModelDesc::StdTab { cap } => { khash.sort(); khash.dedup(); (6, vec![cap], vec![kvs(&khash)]) }
                 ModelDesc::SmallU8 => (7, vec![], vec![]),
+                ModelDesc::Str => (8, vec![], vec![]),
                 ModelDesc::Easy { cap, auto, num, den } => (4, vec![cap, auto as u64, num, den], vec![]),
                 ModelDesc::Gold { cap0, cache, gc, reuse, lf, collide } => {
                     let mut ks: Vec<u64> = ops[..n].iter().map(|o| o.1).collect(); ks.sort(); ks.dedup();
@@ -735,7 +743,7 @@ pub fn run(args: &Args) {
     let mut cx = Ctx {
         sum: Summary::new("C06", "operation histories (insert/remove/get/get_mut/contains_key/len/iter/clear, 3..100 ops plus a full read-back; the wide ones also housekeeping, Clone/PartialEq, bulk insertion, alternative lookups and iteration, get_or_insert, retain) over key universes of 3, 8, 40, 130 keys, marker-adjacent keys and one-home-slot keys, on every map type, constructor and preset; ZiporaHashMap under ten caller-supplied hashers (mixing, identity, constant 0, constant u64::MAX, mod 4, two keys on the markers, k<<60, MAX-(k mod 3), 16*(k mod 3), mod 2) and fourteen hash functions of hash_functions.rs, the other maps with collisions forced through the key's Hash impl; seven rarely used key/value type pairs; enumerated: every history of <= 5 (quick: 4/5) insert/remove/get steps over 3 colliding keys; described histories (tour / threshold sweep / fill past 2^16); each answer compared with a BTreeMap, iteration as a sorted list; non-trivial = history of >= 3 operations"),
         shards: CoqShards::new(HEADER, 150),
-        budget: if args.thorough { 9000 } else { 1450 },
+        budget: if args.thorough { 9000 } else { 1500 },
         strict: args.thorough,
     };
     let mut rng = Rng::new(args.seed);
@@ -876,7 +884,7 @@ pub fn run(args: &Args) {
         for variant in (0..EASY_CLASSIC).chain([EASY_CLASSIC + i % (EASY_VARIANTS - EASY_CLASSIC)]) {
             history(&mut cx, "easy", variant, rng.below(4), &ops, room && (variant + i) % 5 == 2 && ops.len() <= 120, None);
         }
-        history(&mut cx, "str", i % 3, 0, &ops, false, None);
+        history(&mut cx, "str", i % 3, 0, &ops, room && i % 2 == 0, None);
         // rarely used key / value types: one type per round on every map family
         let ty = i % TYPES;
         for fam in ["zip_t", "gold_t", "idx_t", "small_t", "easy_t"] {
